@@ -1470,6 +1470,11 @@ Proof.
 Qed.
 
 (* ------------------------------------ booleans of Shapes.v, as properties *)
+(* valid_config = the structural conditions (valid_config_core) && positive_sizes; the proofs
+   below need the structural part only (the shape calculus never inspects a kernel size) *)
+Lemma valid_core c heads : valid_config c heads = true -> valid_config_core c heads = true.
+Proof. unfold valid_config. intros H. apply andb_true_iff in H. tauto. Qed.
+
 Lemma is_pow2_spec z : is_pow2 z = true -> exists n, z = pow2 n.
 Proof.
   unfold is_pow2. intros H. apply andb_true_iff in H. destruct H as [H0 H1].
@@ -1557,7 +1562,7 @@ Theorem unet_contract_partial fixed u heads H W :
     forall st, fst (model_forward m st (u_in_channels u, H, W)) = Some (contracted heads H W).
 Proof.
   intros Hval Hdom H17 H18 H41 H43.
-  unfold valid_config in Hval. cbn [cfg_output_stride cfg_max_stride] in Hval.
+  apply valid_core in Hval. unfold valid_config_core in Hval. cbn [cfg_output_stride cfg_max_stride] in Hval.
   apply andb_true_iff in Hval. destruct Hval as [Hval Hu].
   apply andb_true_iff in Hval. destruct Hval as [Hval Hvh].
   apply andb_true_iff in Hval. destruct Hval as [Hpos Hpms].
@@ -1678,7 +1683,7 @@ Theorem convnext_contract_partial f41 fixed u heads H W :
     forall st, fst (model_forward m st (c_in_channels u, H, W)) = Some (contracted heads H W).
 Proof.
   intros Hval Hdom H20 H41 H42.
-  unfold valid_config in Hval. cbn [cfg_output_stride cfg_max_stride] in Hval.
+  apply valid_core in Hval. unfold valid_config_core in Hval. cbn [cfg_output_stride cfg_max_stride] in Hval.
   apply andb_true_iff in Hval. destruct Hval as [Hval Hu].
   apply andb_true_iff in Hval. destruct Hval as [Hval Hvh].
   apply andb_true_iff in Hval. destruct Hval as [Hpos Hpms].
@@ -1727,7 +1732,7 @@ Theorem swint_contract_partial f41 fixed u heads H W :
     forall st, fst (model_forward m st (s_in_channels u, H, W)) = Some (contracted heads H W).
 Proof.
   intros Hval Hdom H20 H41 H42.
-  unfold valid_config in Hval. cbn [cfg_output_stride cfg_max_stride] in Hval.
+  apply valid_core in Hval. unfold valid_config_core in Hval. cbn [cfg_output_stride cfg_max_stride] in Hval.
   apply andb_true_iff in Hval. destruct Hval as [Hval Hu].
   apply andb_true_iff in Hval. destruct Hval as [Hval Hvh].
   apply andb_true_iff in Hval. destruct Hval as [Hpos Hpms].
@@ -1860,7 +1865,7 @@ Proof.
   apply unet_contract_partial; auto. right.
   (* re-derive the structure as in unet_contract_partial *)
   pose proof Hval as Hval0.
-  unfold valid_config in Hval. cbn [cfg_output_stride cfg_max_stride] in Hval.
+  apply valid_core in Hval. unfold valid_config_core in Hval. cbn [cfg_output_stride cfg_max_stride] in Hval.
   apply andb_true_iff in Hval. destruct Hval as [Hval Hu].
   apply andb_true_iff in Hval. destruct Hval as [Hval Hvh].
   apply andb_true_iff in Hval. destruct Hval as [Hpos Hpms].
@@ -1968,7 +1973,7 @@ Qed.
 
 Lemma eff_pow2 c heads : valid_config c heads = true -> exists k, effective_max_stride c = pow2 k.
 Proof.
-  intros Hval. unfold valid_config in Hval.
+  intros Hval. apply valid_core in Hval. unfold valid_config_core in Hval.
   apply andb_true_iff in Hval. destruct Hval as [Hval Hu].
   apply andb_true_iff in Hval. destruct Hval as [Hval _].
   apply andb_true_iff in Hval. destruct Hval as [_ Hpms].
@@ -1999,7 +2004,7 @@ Lemma domain_divisible c heads H W :
 Proof.
   intros Hval Hdom H41 H42 hd Hin.
   destruct (eff_pow2 c heads Hval) as (k & Ek).
-  unfold valid_config in Hval.
+  apply valid_core in Hval. unfold valid_config_core in Hval.
   apply andb_true_iff in Hval. destruct Hval as [Hval _].
   apply andb_true_iff in Hval. destruct Hval as [Hval Hvh].
   apply andb_true_iff in Hval. destruct Hval as [_ Hpms].
@@ -2074,29 +2079,30 @@ Definition w_swint_tiny (sps os ms : Z) : config :=
               s_stem_stride := sps; s_rate := 2 # 1; s_up_interp := true; s_output_stride := os;
               s_max_stride := ms |}.
 
-(* each witness: a valid configuration, an input inside the domain, exactly one
-   selector true, and the contract fails on the (pinned) model *)
+(* HISTORIC: each witness: a valid configuration, an input inside the domain, exactly one
+   selector true, and the contract fails on the PINNED model (fixed = false, nofix: before the
+   fixes 14997bd, 5fcfc16, 9a2daa4, f15d414); for the current tree see refutes_fx below *)
 Definition refutes (c : config) (heads : list head) (H W : Z) (sels : list bool) : Prop :=
   valid_config c heads = true /\ in_domain c H W = true /\ sel_vector c heads H W = sels /\
   meets_contract false c heads H W = false.
 
 Lemma refuted_F17 : refutes (w_unet 16 (2 # 1) 16 2 false 2) (get_head MSingle 3 2 2 2) 32 48
-                            [true; false; false; false; false; false].
+                            [true; false; false; false; false; false; false].
 Proof. repeat split; vm_compute; reflexivity. Qed.
 Lemma refuted_F18 : refutes (w_unet 16 (2 # 1) 16 2 true 1) (get_head MSingle 3 2 2 2) 32 48
-                            [false; true; false; false; false; false].
+                            [false; true; false; false; false; false; false].
 Proof. repeat split; vm_compute; reflexivity. Qed.
 Lemma refuted_F20 : refutes (w_convnext_tiny 2 4 16) (get_head MSingle 3 2 4 4) 32 48
-                            [false; false; true; false; false; false].
+                            [false; false; true; false; false; false; false].
 Proof. repeat split; vm_compute; reflexivity. Qed.
 Lemma refuted_F41 : refutes (w_unet 16 (2 # 1) 16 16 true 2) (get_head MCentroid 3 2 16 16) 32 48
-                            [false; false; false; true; false; false].
+                            [false; false; false; true; false; false; false].
 Proof. repeat split; vm_compute; reflexivity. Qed.
 Lemma refuted_F42 : refutes (w_swint_tiny 4 4 16) (get_head MSingle 3 2 4 4) 48 48
-                            [false; false; false; false; true; false].
+                            [false; false; false; false; true; false; false].
 Proof. repeat split; vm_compute; reflexivity. Qed.
 Lemma refuted_F43 : refutes (w_unet 24 (3 # 2) 64 16 true 2) (get_head MBottomUp 3 2 16 32) 64 64
-                            [false; false; false; false; false; true].
+                            [false; false; false; false; false; true; false].
 Proof. repeat split; vm_compute; reflexivity. Qed.
 
 Lemma full_statement_refuted :
@@ -2204,7 +2210,7 @@ Theorem unet_contract_fx fx u heads H W :
     forall st, fst (model_forward m st (u_in_channels u, H, W)) = Some (contracted heads H W).
 Proof.
   intros Hval Hdom H17 H18 H41.
-  unfold valid_config in Hval. cbn [cfg_output_stride cfg_max_stride] in Hval.
+  apply valid_core in Hval. unfold valid_config_core in Hval. cbn [cfg_output_stride cfg_max_stride] in Hval.
   apply andb_true_iff in Hval. destruct Hval as [Hval Hu].
   apply andb_true_iff in Hval. destruct Hval as [Hval Hvh].
   apply andb_true_iff in Hval. destruct Hval as [Hpos Hpms].
@@ -2282,7 +2288,7 @@ Lemma in_domain_fx_on c heads H W : valid_config c heads = true ->
 Proof.
   intros Hval Hdom. destruct (eff_pow2 c heads Hval) as (k & Ek).
   assert (Hp : exists n, cfg_max_stride c = pow2 n).
-  { unfold valid_config in Hval.
+  { apply valid_core in Hval. unfold valid_config_core in Hval.
     apply andb_true_iff in Hval. destruct Hval as [Hval _].
     apply andb_true_iff in Hval. destruct Hval as [Hval _].
     apply andb_true_iff in Hval. destruct Hval as [_ Hpms]. apply is_pow2_spec; auto. }
@@ -2358,7 +2364,8 @@ Proof.
     rewrite Hm in Em'. injection Em' as <-. apply Hf.
 Qed.
 
-(* the four witnesses: refuted as the tree is (refuted_F17 ... refuted_F42), met with the repair *)
+(* the four witnesses: refuted in the pinned tree (refuted_F17 ... refuted_F42), met with the repair
+   (F17 5fcfc16, F18 9a2daa4, F41 f15d414 are in /repo; F42 is proposed only) *)
 Definition only17 := {| fx17 := true; fx18 := false; fx41 := false; fx42 := false |}.
 Definition only18 := {| fx17 := false; fx18 := true; fx41 := false; fx42 := false |}.
 Definition only41 := {| fx17 := false; fx18 := false; fx41 := true; fx42 := false |}.
@@ -2389,3 +2396,642 @@ Lemma tv_top_head_fx :
     valid_config c hs && selector_F41 c hs && negb (meets_contract_fx true nofix c hs 64 96) &&
     meets_contract_fx true only41 c hs 64 96) tv_presets = true.
 Proof. vm_compute. reflexivity. Qed.
+
+(* ======================================================================
+   Round 4 (review findings 2, 3, 4, 5, 7).
+
+   ConvNeXt / Swin-T with the head rule of the current tree (fixed = true, 14997bd):
+   the regions that used to fall under selector F20 (backbone output stride coarser
+   than stem_patch_stride: b > e) and F41 (a head on the encoder output, t = e + 3,
+   with the f15d414 repair) get an UNBOUNDED proof.  The decoder's `for` loop always
+   builds three blocks at strides 4*sps, 2*sps, sps whatever output_stride is; the
+   `while` loop adds e - b more (none when b >= e): L = 3 + (e - b). *)
+
+Lemma build_decoder_gen_hi (X Cc k : Z) (interp : bool) e b : (1 <= e <= 2)%nat -> (e <= b)%nat ->
+  build_decoder X (pow2 e * 2 ^ (Z.of_nat 3 - 1)) Cc (2 # 1) 3 (Z.of_nat 3) (pow2 b) k interp
+  = Some {| d_stack := map (dec_for_block X Cc (2 # 1) 3 k interp) (seq 0 3);
+            d_strides := map (fun j => pow2 (e + 2 - j)) (seq 0 3);
+            d_residuals := 3;
+            d_x_in := X;
+            d_cs0 := pow2 e * 2 ^ (Z.of_nat 3 - 1) |}.
+Proof.
+  intros He Hb. assert (Hc : (e = 1 \/ e = 2)%nat) by lia.
+  assert (Hp : pow2 e <= pow2 b).
+  { destruct (Nat.eq_dec e b) as [->|]; [lia|]. assert (pow2 e < pow2 b) by (apply pow2_lt; lia). lia. }
+  unfold build_decoder. cbv zeta.
+  destruct Hc as [-> | ->].
+  - change (halve (pow2 1 * 2 ^ (Z.of_nat 3 - 1)) 3) with 1. change (pow2 1) with 2 in Hp.
+    destruct (Z.ltb_spec 1 (pow2 b)); [|lia]. reflexivity.
+  - change (halve (pow2 2 * 2 ^ (Z.of_nat 3 - 1)) 3) with 2. change (pow2 2) with 4 in Hp.
+    destruct (Z.ltb_spec 2 (pow2 b)); [|lia]. reflexivity.
+Qed.
+
+Lemma tv_build_decoder_any C4 k interp e b : (1 <= e <= 2)%nat ->
+  build_decoder (8 * (4 * C4)) (pow2 e * 2 ^ (Z.of_nat 3 - 1)) (4 * C4) (2 # 1) 3 (Z.of_nat 3) (pow2 b) k interp
+  = Some (tv_decoder C4 k interp e (3 + (e - b))).
+Proof.
+  intros He. destruct (le_lt_dec b e) as [Hbe | Hbe].
+  - rewrite tv_build_decoder by assumption. do 2 f_equal. lia.
+  - rewrite build_decoder_gen_hi by lia. replace (3 + (e - b))%nat with 3%nat by lia.
+    unfold tv_decoder. cbn [Nat.sub seq map]. rewrite app_nil_r. reflexivity.
+Qed.
+
+Lemma tv_stack_out_gen C4 k interp e L i : (i < L)%nat ->
+  option_map (fun ub => trunc (ub_out ub)) (nth_error (d_stack (tv_decoder C4 k interp e L)) i) = Some (tv_ch C4 i).
+Proof.
+  intros Hi. cbn [tv_decoder d_stack].
+  destruct (Nat.ltb_spec i 3).
+  - rewrite nth_error_app1 by (rewrite map_length, seq_length; lia).
+    rewrite nth_error_map, nth_error_seq by lia. cbn [option_map Nat.add].
+    unfold dec_for_block, simple_upsampling_block. cbn [ub_out]. rewrite trunc_inject_Z.
+    rewrite fint2_nonneg by lia. unfold tv_ch. f_equal.
+    destruct i as [|[|[|]]]; try lia; compute_pows; lia.
+  - rewrite nth_error_app2 by (rewrite map_length, seq_length; lia).
+    rewrite map_length, seq_length.
+    rewrite nth_error_map, nth_error_seq by lia. cbn [option_map].
+    unfold tv_extra, simple_upsampling_block. cbn [ub_out]. rewrite trunc_inject_Z.
+    do 2 f_equal. lia.
+Qed.
+
+Section TVModelX.
+Variables (C4 k : Z) (interp : bool) (e b : nat).
+Hypothesis He : (1 <= e <= 2)%nat.
+Let L := (3 + (e - b))%nat.
+
+(* heads at 2^t, backbone stride 2^b <= 2^t <= 4 * stem_patch_stride, or -- with the f15d414
+   repair -- 2^t = 8 * stem_patch_stride: the encoder output itself *)
+Definition tv_heads_ok_fx (f41 : bool) (heads : list head) : Prop :=
+  Forall (fun hd => exists t, (b <= t)%nat /\ ((t <= e + 2)%nat \/ (t = (e + 3)%nat /\ f41 = true)) /\
+                              h_os hd = pow2 t) heads.
+
+Lemma at_top_tv_gen f41 bb hd t L' :
+  bb_dec bb = tv_decoder C4 k interp e L' -> h_os hd = pow2 t -> at_top f41 bb hd = f41 && Nat.eqb t (e + 3).
+Proof.
+  intros Hd E. unfold at_top, encoder_stride. rewrite Hd, E. cbn [tv_decoder d_cs0]. f_equal.
+  replace (2 * (pow2 e * 2 ^ (Z.of_nat 3 - 1))) with (pow2 (e + 3)).
+  - destruct (Nat.eqb_spec t (e + 3)) as [->|Hne]. apply Z.eqb_refl.
+    apply Z.eqb_neq. intros Hp. apply pow2_inj in Hp. lia.
+  - rewrite pow2_add. change (pow2 3) with 8. change (2 ^ (Z.of_nat 3 - 1)) with 4. lia.
+Qed.
+
+Theorem tv_model_forward_x f41 bb heads st x h w st' :
+  bb_dec bb = tv_decoder C4 k interp e L -> bb_output_stride bb = pow2 b ->
+  tv_heads_ok_fx f41 heads ->
+  backbone_forward bb st x = (Some (map (tv_out C4 h w) (seq 0 L)), st') ->
+  backbone_bottom bb st x = Some (8 * (4 * C4), h, w) ->
+  exists m, build_model_fx f41 true (Some bb) heads = Some m /\
+    fst (model_forward m st x) = Some (contracted heads (h * pow2 (e + 3)) (w * pow2 (e + 3))).
+Proof.
+  intros Hd Hos Hheads Hfw Hbot. unfold tv_heads_ok_fx in Hheads. unfold build_model_fx.
+  set (tof := fun hd : head => Z.to_nat (Z.log2 (h_os hd))).
+  assert (Etof : forall hd, In hd heads ->
+            exists t, (b <= t)%nat /\ ((t <= e + 2)%nat \/ (t = (e + 3)%nat /\ f41 = true)) /\
+                      h_os hd = pow2 t /\ tof hd = t).
+  { intros hd Hin. rewrite Forall_forall in Hheads. destruct (Hheads hd Hin) as (t & Ht & Ht2 & E).
+    exists t. repeat split; auto. unfold tof. rewrite E, pow2_log2. lia. }
+  set (chan := fun hd : head => if Nat.eqb (tof hd) (e + 3) then 8 * (4 * C4) else tv_ch C4 (e + 2 - tof hd)).
+  rewrite (all_some_map _ chan).
+  2:{ intros hd Hin. destruct (Etof hd Hin) as (t & Ht & Ht2 & E & Et). unfold head_in_channels_fx, chan.
+      rewrite (at_top_tv_gen f41 bb hd t L Hd E), Et.
+      destruct Ht2 as [Hle | [-> ->]].
+      - destruct (Nat.eqb_spec t (e + 3)); [lia|]. rewrite andb_false_r.
+        unfold head_in_channels. rewrite Hd, E. cbn [tv_decoder d_strides].
+        rewrite index_of_tv by (unfold L; lia).
+        pose proof (tv_stack_out_gen C4 k interp e L (e + 2 - t) ltac:(unfold L; lia)) as Hs.
+        cbn [tv_decoder d_stack] in Hs |- *.
+        destruct (nth_error _ (e + 2 - t)) as [ub|]; cbn [option_map] in Hs;
+          [injection Hs as Hs; rewrite Hs; reflexivity | discriminate].
+      - rewrite Nat.eqb_refl. cbn [andb]. rewrite Hd. reflexivity. }
+  eexists. split. reflexivity.
+  unfold model_forward. cbn [m_backbone m_heads m_head_layers m_f41].
+  rewrite Hfw. cbn [fst].
+  rewrite combine_map_r, map_map. cbn [fst snd].
+  rewrite combine_map_r, map_map. cbn [fst snd].
+  unfold contracted. apply all_some_map.
+  intros hd Hin. destruct (Etof hd Hin) as (t & Ht & Ht2 & Eos & Et).
+  rewrite (at_top_tv_gen f41 bb hd t L Hd Eos). unfold chan. rewrite Et, Eos.
+  destruct Ht2 as [Hle | [-> ->]].
+  - destruct (Nat.eqb_spec t (e + 3)); [lia|]. rewrite andb_false_r. rewrite Hd.
+    cbn [tv_decoder d_strides]. rewrite index_of_tv by (unfold L; lia).
+    rewrite nth_error_map, nth_error_seq by (unfold L; lia). cbn [option_map Nat.add].
+    unfold tv_out, make_head. cbn [run_layers run_layer]. rewrite Z.eqb_refl. cbn [fst].
+    replace (S (e + 2 - t)) with (e + 3 - t)%nat by lia.
+    rewrite !mul_pow2_div by lia. reflexivity.
+  - rewrite Nat.eqb_refl. cbn [andb]. rewrite Hbot.
+    unfold make_head. cbn [run_layers run_layer]. rewrite Z.eqb_refl. cbn [fst].
+    rewrite !mul_pow2_div by lia. rewrite Nat.sub_diag. cbn [pow2]. rewrite !Z.mul_1_r. reflexivity.
+Qed.
+
+End TVModelX.
+
+(* ConvNeXt / Swin-T configurations without the restriction b <= e *)
+Definition convnext_valid_x (c : convnext_cfg) (C4 : Z) (ds : list Z) (e b : nat) : Prop :=
+  convnext_arch c = (ds, [4 * C4; 2 * (4 * C4); 4 * (4 * C4); 8 * (4 * C4)]) /\ length ds = 4%nat /\
+  c_stem_kernel c = 4 /\ c_stem_stride c = pow2 e /\ (1 <= e <= 2)%nat /\
+  c_rate c = 2 # 1 /\ c_output_stride c = pow2 b.
+
+Lemma convnext_valid_weaken c C4 ds e b : convnext_valid c C4 ds e b -> convnext_valid_x c C4 ds e b.
+Proof. unfold convnext_valid, convnext_valid_x. tauto. Qed.
+
+Lemma build_convnext_spec_x c C4 ds e b : convnext_valid_x c C4 ds e b ->
+  exists d0 d1 d2 d3 bb, build_convnext c = Some bb /\
+    bb_kind bb = 1%nat /\ bb_enc bb = convnext_enc c C4 d0 d1 d2 d3 /\
+    bb_dec bb = tv_decoder C4 (c_kernel c) (c_up_interp c) e (3 + (e - b)) /\
+    bb_rate bb = 2 # 1 /\ bb_output_stride bb = pow2 b.
+Proof.
+  intros (Ha & Hl & Hk & Hs & He & Hr & Ho).
+  destruct ds as [|d0 [|d1 [|d2 [|d3 [|]]]]]; try discriminate Hl.
+  exists d0, d1, d2, d3. unfold build_convnext. rewrite Ha.
+  cbn [convnext_stages length Nat.sub last].
+  rewrite Hs, Hr, Ho.
+  rewrite (tv_build_decoder_any C4 (c_kernel c) (c_up_interp c) e b) by assumption.
+  eexists. split. reflexivity. cbn [bb_kind bb_enc bb_dec bb_rate bb_output_stride].
+  repeat split. unfold convnext_enc. rewrite Hs. reflexivity.
+Qed.
+
+(* the encoder's own output (what a head at stride 8 * stem_patch_stride is fed) *)
+Lemma convnext_backbone_bottom c C4 d0 d1 d2 d3 e bb st h w :
+  bb_kind bb = 1%nat -> bb_enc bb = convnext_enc c C4 d0 d1 d2 d3 ->
+  c_stem_kernel c = 4 -> c_stem_stride c = pow2 e -> (1 <= e <= 2)%nat -> 0 < h -> 0 < w ->
+  backbone_bottom bb st (c_in_channels c, pow2 e * (2 * (2 * (2 * h))), pow2 e * (2 * (2 * (2 * w))))
+  = Some (8 * (4 * C4), h, w).
+Proof.
+  intros Hk He Hsk Hs Hee Hh Hw. unfold backbone_bottom. rewrite Hk, He.
+  unfold convnext_enc. rewrite Hsk, Hs.
+  assert (Hsps : pow2 e = 2 \/ pow2 e = 4).
+  { destruct e as [|[|[|]]]; try lia; cbn; auto. }
+  cbn [map].
+  assert (H2h : 0 < 2 * h) by lia. assert (H2w : 0 < 2 * w) by lia.
+  assert (H4h : 0 < 2 * (2 * h)) by lia. assert (H4w : 0 < 2 * (2 * w)) by lia.
+  assert (H8h : 0 < 2 * (2 * (2 * h))) by lia. assert (H8w : 0 < 2 * (2 * (2 * w))) by lia.
+  rewrite (feats_forward_cons_ok _ _ _ _ _ (run_stem _ _ _ _ _ st Hsps H8h H8w)).
+  rewrite (feats_forward_cons_ok _ _ _ _ _ (run_cn_stage _ _ _ _ st)).
+  rewrite (feats_forward_cons_ok _ _ _ _ _ (run_cn_down _ _ _ _ st H4h H4w)).
+  rewrite (feats_forward_cons_ok _ _ _ _ _ (run_cn_stage _ _ _ _ st)).
+  rewrite (feats_forward_cons_ok _ _ _ _ _ (run_cn_down _ _ _ _ st H2h H2w)).
+  rewrite (feats_forward_cons_ok _ _ _ _ _ (run_cn_stage _ _ _ _ st)).
+  rewrite (feats_forward_cons_ok _ _ _ _ _ (run_cn_down _ _ _ _ st Hh Hw)).
+  rewrite (feats_forward_cons_ok _ _ _ _ _ (run_cn_stage _ _ _ _ st)).
+  cbn [feats_forward rev app]. reflexivity.
+Qed.
+
+Theorem convnext_model_forward_x f41 c C4 ds e b heads st h w :
+  convnext_valid_x c C4 ds e b -> tv_heads_ok_fx e b f41 heads -> 0 < h -> 0 < w ->
+  exists m, build_model_fx f41 true (build_convnext c) heads = Some m /\
+    fst (model_forward m st (c_in_channels c, pow2 e * (2 * (2 * (2 * h))), pow2 e * (2 * (2 * (2 * w)))))
+    = Some (contracted heads (h * pow2 (e + 3)) (w * pow2 (e + 3))).
+Proof.
+  intros Hv Hheads Hh Hw.
+  destruct (build_convnext_spec_x c C4 ds e b Hv) as (d0 & d1 & d2 & d3 & bb & Eb & Hk & Hen & Hd & Hr & Ho).
+  destruct Hv as (Ha & Hl & Hsk & Hs & He & Hrr & Hoo).
+  rewrite Eb.
+  eapply (tv_model_forward_x C4 (c_kernel c) (c_up_interp c) e b He); eauto.
+  - eapply convnext_backbone_forward; eauto. lia.
+  - eapply convnext_backbone_bottom; eauto.
+Qed.
+
+Definition swint_valid_x (c : swint_cfg) (C4 : Z) (ds nhs : list Z) (e b : nat) : Prop :=
+  swint_arch c = (4 * C4, ds, nhs) /\ length ds = 4%nat /\ length nhs = 4%nat /\
+  (4 * C4) mod (nth 0 nhs 1) = 0 /\ (2 * (4 * C4)) mod (nth 1 nhs 1) = 0 /\
+  (2 * (2 * (4 * C4))) mod (nth 2 nhs 1) = 0 /\ (2 * (2 * (2 * (4 * C4)))) mod (nth 3 nhs 1) = 0 /\
+  s_patch c = 4 /\ s_stem_stride c = pow2 e /\ (1 <= e <= 2)%nat /\
+  s_rate c = 2 # 1 /\ s_output_stride c = pow2 b.
+
+Lemma swint_valid_weaken c C4 ds nhs e b : swint_valid c C4 ds nhs e b -> swint_valid_x c C4 ds nhs e b.
+Proof. unfold swint_valid, swint_valid_x. tauto. Qed.
+
+Lemma build_swint_spec_x c C4 ds nhs e b : swint_valid_x c C4 ds nhs e b ->
+  exists d0 d1 d2 d3 n0 n1 n2 n3 bb, build_swint c = Some bb /\
+    nhs = [n0; n1; n2; n3] /\
+    bb_kind bb = 2%nat /\ bb_enc bb = swint_enc c C4 d0 d1 d2 d3 n0 n1 n2 n3 /\
+    bb_dec bb = tv_decoder C4 (s_kernel c) (s_up_interp c) e (3 + (e - b)) /\
+    bb_rate bb = 2 # 1 /\ bb_output_stride bb = pow2 b.
+Proof.
+  intros (Ha & Hl & Hl2 & _ & _ & _ & _ & Hk & Hs & He & Hr & Ho).
+  destruct ds as [|d0 [|d1 [|d2 [|d3 [|]]]]]; try discriminate Hl.
+  destruct nhs as [|n0 [|n1 [|n2 [|n3 [|]]]]]; try discriminate Hl2.
+  exists d0, d1, d2, d3, n0, n1, n2, n3. unfold build_swint. rewrite Ha.
+  cbn [swint_stages length Nat.sub last removelast app].
+  rewrite Hs, Hr, Ho.
+  replace (4 * C4 * 2 ^ Z.of_nat 3) with (8 * (4 * C4)) by (compute_pows; lia).
+  rewrite (tv_build_decoder_any C4 (s_kernel c) (s_up_interp c) e b) by assumption.
+  eexists. split. reflexivity. cbn [bb_kind bb_enc bb_dec bb_rate bb_output_stride].
+  repeat split. unfold swint_enc. rewrite Hs.
+  replace (4 * C4 * 2 ^ Z.of_nat 3) with (8 * (4 * C4)) by (compute_pows; lia). reflexivity.
+Qed.
+
+Lemma swint_backbone_bottom c C4 d0 d1 d2 d3 n0 n1 n2 n3 e bb st h w :
+  bb_kind bb = 2%nat -> bb_enc bb = swint_enc c C4 d0 d1 d2 d3 n0 n1 n2 n3 ->
+  (4 * C4) mod n0 = 0 -> (2 * (4 * C4)) mod n1 = 0 ->
+  (2 * (2 * (4 * C4))) mod n2 = 0 -> (2 * (2 * (2 * (4 * C4)))) mod n3 = 0 ->
+  s_patch c = 4 -> s_stem_stride c = pow2 e -> (1 <= e <= 2)%nat -> 0 < h -> 0 < w ->
+  backbone_bottom bb st (s_in_channels c, pow2 e * (2 * (2 * (2 * h))), pow2 e * (2 * (2 * (2 * w))))
+  = Some (8 * (4 * C4), h, w).
+Proof.
+  intros Hk He M0 M1 M2 M3 Hsk Hs Hee Hh Hw. unfold backbone_bottom. rewrite Hk, He.
+  unfold swint_enc. rewrite Hsk, Hs.
+  assert (Hsps : pow2 e = 2 \/ pow2 e = 4).
+  { clear - Hee. destruct e as [|[|[|]]]; try lia; cbn; auto. }
+  cbn [map].
+  assert (H2h : 0 < 2 * h) by (clear - Hh; lia). assert (H2w : 0 < 2 * w) by (clear - Hw; lia).
+  assert (H4h : 0 < 2 * (2 * h)) by (clear - Hh; lia). assert (H4w : 0 < 2 * (2 * w)) by (clear - Hw; lia).
+  assert (H8h : 0 < 2 * (2 * (2 * h))) by (clear - Hh; lia). assert (H8w : 0 < 2 * (2 * (2 * w))) by (clear - Hw; lia).
+  assert (EX : 4 * C4 * 2 ^ Z.of_nat 3 = 2 * (2 * (2 * (4 * C4)))) by (clear; compute_pows; lia).
+  rewrite (feats_forward_cons_ok _ _ _ _ _ (run_stem _ _ _ _ _ st Hsps H8h H8w)).
+  rewrite (feats_forward_cons_ok _ _ _ _ _ (run_sw_stage _ _ _ _ _ st M0)).
+  rewrite (feats_forward_cons_ok _ _ _ _ _ (run_sw_merge _ _ _ st)).
+  rewrite (feats_forward_cons_ok _ _ _ _ _ (run_sw_stage _ _ _ _ _ st M1)).
+  rewrite (feats_forward_cons_ok _ _ _ _ _ (run_sw_merge _ _ _ st)).
+  rewrite (feats_forward_cons_ok _ _ _ _ _ (run_sw_stage _ _ _ _ _ st M2)).
+  rewrite (feats_forward_cons_ok _ _ _ _ _ (run_sw_merge _ _ _ st)).
+  rewrite (feats_forward_cons_ok _ _ _ _ _ (run_sw_last _ _ _ _ _ _ st M3 EX)).
+  cbn [feats_forward rev app]. apply some_shape_eq; clear; lia.
+Qed.
+
+Theorem swint_model_forward_x f41 c C4 ds nhs e b heads st h w :
+  swint_valid_x c C4 ds nhs e b -> tv_heads_ok_fx e b f41 heads -> 0 < h -> 0 < w ->
+  exists m, build_model_fx f41 true (build_swint c) heads = Some m /\
+    fst (model_forward m st (s_in_channels c, pow2 e * (2 * (2 * (2 * h))), pow2 e * (2 * (2 * (2 * w)))))
+    = Some (contracted heads (h * pow2 (e + 3)) (w * pow2 (e + 3))).
+Proof.
+  intros Hv Hheads Hh Hw.
+  destruct (build_swint_spec_x c C4 ds nhs e b Hv)
+    as (d0 & d1 & d2 & d3 & n0 & n1 & n2 & n3 & bb & Eb & En & Hk & Hen & Hd & Hr & Ho).
+  destruct Hv as (Ha & Hl & Hl2 & M0 & M1 & M2 & M3 & Hsk & Hs & He & Hrr & Hoo).
+  subst nhs. cbn [nth] in M0, M1, M2, M3.
+  rewrite Eb.
+  eapply (tv_model_forward_x C4 (s_kernel c) (s_up_interp c) e b He); eauto.
+  - eapply swint_backbone_forward; eauto. clear - He. lia.
+  - eapply swint_backbone_bottom; eauto.
+Qed.
+
+(* --------- ConvNeXt / Swin-T in selector form, head rule of the current tree --------- *)
+Lemma tv_common_x (f41 : bool) (bos sps cfgmax eff : Z) heads H W e :
+  sps = pow2 e -> eff = pow2 (e + 3) -> is_pow2 bos = true -> is_pow2 cfgmax = true ->
+  forallb (fun hd => is_pow2 (h_os hd) && (bos <=? h_os hd) && (h_os hd <=? Z.max cfgmax eff)) heads = true ->
+  (f41 = true \/ existsb (fun hd => eff <=? h_os hd) heads = false) ->
+  existsb (fun hd => eff <? h_os hd) heads = false ->
+  (0 <? H) && (0 <? W) && (H mod cfgmax =? 0) && (W mod cfgmax =? 0) = true ->
+  (cfgmax <? eff) && negb ((H mod eff =? 0) && (W mod eff =? 0)) = false ->
+  exists b h w, bos = pow2 b /\ tv_heads_ok_fx e b f41 heads /\ 0 < h /\ 0 < w /\
+    H = pow2 e * (2 * (2 * (2 * h))) /\ W = pow2 e * (2 * (2 * (2 * w))) /\
+    H = h * pow2 (e + 3) /\ W = w * pow2 (e + 3).
+Proof.
+  intros Hsps Heff Hpb Hpm Hall H41 H44 Hdom H42.
+  destruct (is_pow2_spec _ Hpb) as (b & Hb). destruct (is_pow2_spec _ Hpm) as (mm & Hmm).
+  rewrite forallb_forall in Hall.
+  assert (Hh : forall hd, In hd heads ->
+            exists t, (b <= t)%nat /\ ((t <= e + 2)%nat \/ (t = (e + 3)%nat /\ f41 = true)) /\ h_os hd = pow2 t).
+  { intros hd Hin. specialize (Hall hd Hin).
+    apply andb_true_iff in Hall. destruct Hall as [Hall _].
+    apply andb_true_iff in Hall. destruct Hall as [Hp2 Hle].
+    destruct (is_pow2_spec _ Hp2) as (t & Et). exists t.
+    apply Z.leb_le in Hle. rewrite Hb, Et in Hle. apply pow2_le_inv in Hle.
+    pose proof (existsb_false _ _ H44 hd Hin) as Hge. cbn beta in Hge. apply Z.ltb_ge in Hge.
+    rewrite Heff, Et in Hge. apply pow2_le_inv in Hge.
+    split. exact Hle. split; [|exact Et].
+    destruct H41 as [-> | H41].
+    - destruct (Nat.eq_dec t (e + 3)); [right; auto | left; lia].
+    - left. pose proof (existsb_false _ _ H41 hd Hin) as Hlt. cbn beta in Hlt. apply Z.leb_gt in Hlt.
+      rewrite Heff, Et in Hlt. apply pow2_lt_inv in Hlt. lia. }
+  repeat (apply andb_true_iff in Hdom; destruct Hdom as [Hdom ?]).
+  apply Z.ltb_lt in Hdom. apply Z.ltb_lt in H2. apply Z.eqb_eq in H1. apply Z.eqb_eq in H0.
+  assert (Hdiv : H mod pow2 (e + 3) = 0 /\ W mod pow2 (e + 3) = 0).
+  { apply andb_false_iff in H42. destruct H42 as [Hge | Hd].
+    - apply Z.ltb_ge in Hge. rewrite Heff, Hmm in Hge. apply pow2_le_inv in Hge.
+      rewrite Hmm in H0, H1. split; eapply mod_pow2_weaken; eauto.
+    - apply negb_false_iff, andb_true_iff in Hd. destruct Hd as [D1 D2].
+      apply Z.eqb_eq in D1. apply Z.eqb_eq in D2. rewrite Heff in D1, D2. auto. }
+  destruct Hdiv as [D1 D2].
+  destruct (mod_pow2_mult H (e + 3) Hdom D1) as (h & Hh0 & EH).
+  destruct (mod_pow2_mult W (e + 3) H2 D2) as (w & Hw0 & EW).
+  exists b, h, w. repeat split; auto.
+  - apply Forall_forall. auto.
+  - rewrite EH, pow2_add. cbn [pow2]. lia.
+  - rewrite EW, pow2_add. cbn [pow2]. lia.
+Qed.
+
+Theorem convnext_contract_fx f41 u heads H W :
+  valid_config (CfgConvNext u) heads = true -> in_domain (CfgConvNext u) H W = true ->
+  (f41 = true \/ selector_F41 (CfgConvNext u) heads = false) ->
+  selector_F44 (CfgConvNext u) heads = false -> selector_F42 (CfgConvNext u) H W = false ->
+  exists m, build_model_fx f41 true (build_convnext u) heads = Some m /\
+    forall st, fst (model_forward m st (c_in_channels u, H, W)) = Some (contracted heads H W).
+Proof.
+  intros Hval Hdom H41 H44 H42.
+  apply valid_core in Hval. unfold valid_config_core in Hval. cbn [cfg_output_stride cfg_max_stride] in Hval.
+  apply andb_true_iff in Hval. destruct Hval as [Hval Hu].
+  apply andb_true_iff in Hval. destruct Hval as [Hval Hvh].
+  apply andb_true_iff in Hval. destruct Hval as [Hpos Hpms].
+  apply andb_true_iff in Hu. destruct Hu as [Hu Harch].
+  apply andb_true_iff in Hu. destruct Hu as [Hu Hker].
+  apply andb_true_iff in Hu. destruct Hu as [Hrate Hsps].
+  apply q_is_spec in Hrate. apply Z.eqb_eq in Hker.
+  destruct (sps_pow2 _ Hsps) as (e & He & Es).
+  unfold convnext_arch_ok in Harch.
+  destruct (convnext_arch u) as [ds chs] eqn:Ea.
+  destruct chs as [|c0 [|c1 [|c2 [|c3 [|]]]]]; try discriminate Harch.
+  apply andb_true_iff in Harch. destruct Harch as [Harch A3]. apply Z.eqb_eq in A3.
+  apply andb_true_iff in Harch. destruct Harch as [Harch A2]. apply Z.eqb_eq in A2.
+  apply andb_true_iff in Harch. destruct Harch as [Harch A1]. apply Z.eqb_eq in A1.
+  apply andb_true_iff in Harch. destruct Harch as [Harch A0]. apply Z.eqb_eq in A0.
+  apply andb_true_iff in Harch. destruct Harch as [Alen _]. apply Nat.eqb_eq in Alen.
+  set (C4 := c0 / 4). assert (Ec0 : c0 = 4 * C4) by (clear - A0; unfold C4; lia).
+  assert (Earch : (ds, [c0; c1; c2; c3]) = (ds, [4 * C4; 2 * (4 * C4); 4 * (4 * C4); 8 * (4 * C4)])).
+  { rewrite A1, A2, A3, Ec0. reflexivity. }
+  assert (Eeff : effective_max_stride (CfgConvNext u) = pow2 (e + 3)).
+  { cbn [effective_max_stride]. rewrite Ea, Es. cbn [snd length]. rewrite pow2_add. compute_pows. lia. }
+  unfold valid_heads in Hvh. apply andb_true_iff in Hvh. destruct Hvh as [_ Hall].
+  unfold selector_F41 in H41. unfold selector_F44 in H44. cbn [cfg_patch_stride] in H44.
+  unfold selector_F42 in H42. cbn [cfg_patch_stride cfg_max_stride] in H42.
+  unfold in_domain in Hdom. cbn [cfg_max_stride] in Hdom. cbn [cfg_output_stride cfg_max_stride] in Hall.
+  destruct (tv_common_x f41 (c_output_stride u) (c_stem_stride u) (c_max_stride u)
+              (effective_max_stride (CfgConvNext u)) heads H W e Es Eeff Hpos Hpms Hall H41 H44 Hdom H42)
+    as (b & h & w & Hos & Hheads & Hh & Hw & EH & EW & EH2 & EW2).
+  assert (Hv : convnext_valid_x u C4 ds e b).
+  { unfold convnext_valid_x. rewrite Ea. split. exact Earch.
+    split. exact Alen. split. exact Hker. split. exact Es. split. exact He.
+    split. exact Hrate. exact Hos. }
+  destruct (convnext_model_forward_x f41 u C4 ds e b heads fresh h w Hv Hheads Hh Hw) as (m & Em & _).
+  exists m. split. exact Em. intros st.
+  destruct (convnext_model_forward_x f41 u C4 ds e b heads st h w Hv Hheads Hh Hw) as (m' & Em' & Hf).
+  rewrite Em in Em'. injection Em' as <-.
+  rewrite <- EH, <- EW in Hf. rewrite <- EH2, <- EW2 in Hf. exact Hf.
+Qed.
+
+Theorem swint_contract_fx f41 u heads H W :
+  valid_config (CfgSwinT u) heads = true -> in_domain (CfgSwinT u) H W = true ->
+  (f41 = true \/ selector_F41 (CfgSwinT u) heads = false) ->
+  selector_F44 (CfgSwinT u) heads = false -> selector_F42 (CfgSwinT u) H W = false ->
+  exists m, build_model_fx f41 true (build_swint u) heads = Some m /\
+    forall st, fst (model_forward m st (s_in_channels u, H, W)) = Some (contracted heads H W).
+Proof.
+  intros Hval Hdom H41 H44 H42.
+  apply valid_core in Hval. unfold valid_config_core in Hval. cbn [cfg_output_stride cfg_max_stride] in Hval.
+  apply andb_true_iff in Hval. destruct Hval as [Hval Hu].
+  apply andb_true_iff in Hval. destruct Hval as [Hval Hvh].
+  apply andb_true_iff in Hval. destruct Hval as [Hpos Hpms].
+  apply andb_true_iff in Hu. destruct Hu as [Hu Harch].
+  apply andb_true_iff in Hu. destruct Hu as [Hu Hker].
+  apply andb_true_iff in Hu. destruct Hu as [Hrate Hsps].
+  apply q_is_spec in Hrate. apply Z.eqb_eq in Hker.
+  destruct (sps_pow2 _ Hsps) as (e & He & Es).
+  unfold swint_arch_ok in Harch.
+  destruct (swint_arch u) as [[E ds] nhs] eqn:Ea.
+  destruct nhs as [|n0 [|n1 [|n2 [|n3 [|]]]]]; try discriminate Harch.
+  apply andb_true_iff in Harch. destruct Harch as [Harch M3]. apply Z.eqb_eq in M3.
+  apply andb_true_iff in Harch. destruct Harch as [Harch M2]. apply Z.eqb_eq in M2.
+  apply andb_true_iff in Harch. destruct Harch as [Harch M1]. apply Z.eqb_eq in M1.
+  apply andb_true_iff in Harch. destruct Harch as [Harch M0]. apply Z.eqb_eq in M0.
+  apply andb_true_iff in Harch. destruct Harch as [Harch A0]. apply Z.eqb_eq in A0.
+  apply andb_true_iff in Harch. destruct Harch as [Alen _]. apply Nat.eqb_eq in Alen.
+  set (C4 := E / 4). assert (EE : E = 4 * C4) by (clear - A0; unfold C4; lia).
+  clearbody C4. subst E.
+  assert (Eeff : effective_max_stride (CfgSwinT u) = pow2 (e + 3)).
+  { cbn [effective_max_stride]. rewrite Ea, Es. cbn [fst snd]. rewrite Alen, pow2_add. compute_pows.
+    clear. lia. }
+  unfold valid_heads in Hvh. apply andb_true_iff in Hvh. destruct Hvh as [_ Hall].
+  unfold selector_F41 in H41. unfold selector_F44 in H44. cbn [cfg_patch_stride] in H44.
+  unfold selector_F42 in H42. cbn [cfg_patch_stride cfg_max_stride] in H42.
+  unfold in_domain in Hdom. cbn [cfg_max_stride] in Hdom. cbn [cfg_output_stride cfg_max_stride] in Hall.
+  destruct (tv_common_x f41 (s_output_stride u) (s_stem_stride u) (s_max_stride u)
+              (effective_max_stride (CfgSwinT u)) heads H W e Es Eeff Hpos Hpms Hall H41 H44 Hdom H42)
+    as (b & h & w & Hos & Hheads & Hh & Hw & EH & EW & EH2 & EW2).
+  assert (Hv : swint_valid_x u C4 ds [n0; n1; n2; n3] e b).
+  { unfold swint_valid_x. rewrite Ea. cbn [nth length].
+    split. reflexivity. split. exact Alen. split. reflexivity.
+    split. exact M0. split. exact M1. split. exact M2. split. exact M3.
+    split. exact Hker. split. exact Es. split. exact He.
+    split. exact Hrate. exact Hos. }
+  destruct (swint_model_forward_x f41 u C4 ds [n0; n1; n2; n3] e b heads fresh h w Hv Hheads Hh Hw) as (m & Em & _).
+  exists m. split. exact Em. intros st.
+  destruct (swint_model_forward_x f41 u C4 ds [n0; n1; n2; n3] e b heads st h w Hv Hheads Hh Hw) as (m' & Em' & Hf).
+  rewrite Em in Em'. injection Em' as <-.
+  rewrite <- EH, <- EW in Hf. rewrite <- EH2, <- EW2 in Hf. exact Hf.
+Qed.
+
+(* THE STATEMENT FOR THE CURRENT HEAD RULE, ALL THREE FAMILIES, ALL FLAGS: the only
+   hypotheses left are the selectors of repairs that are switched off and the open F44.
+   With the flags of the current tree (fx17 = fx18 = fx41 = true, fx42 = false) it reads:
+   valid, in-domain, not F42, not F44 => contract. *)
+Definition open_selector (fx : fixes) (c : config) (heads : list head) (H W : Z) : bool :=
+  (negb (fx17 fx) && selector_F17 c) || (negb (fx18 fx) && selector_F18 c) ||
+  (negb (fx41 fx) && selector_F41 c heads) || (negb (fx42 fx) && selector_F42 c H W) ||
+  selector_F44 c heads.
+
+Lemma F44_false_unet u heads : selector_F44 (CfgUNet u) heads = false.
+Proof. reflexivity. Qed.
+
+Lemma F41_false_F44_false c heads : selector_F41 c heads = false -> selector_F44 c heads = false.
+Proof.
+  unfold selector_F41, selector_F44. intros H. destruct (cfg_patch_stride c); [|reflexivity].
+  induction heads as [|hd tl IH]; [reflexivity|]. cbn [existsb] in *.
+  apply orb_false_iff in H. destruct H as [H1 H2]. rewrite (IH H2), orb_false_r.
+  apply Z.leb_gt in H1. apply Z.ltb_ge. lia.
+Qed.
+
+(* the older residual selector is weaker: contract_fx_partial is a corollary of contract_fx_open *)
+Lemma residual_implies_open fx c heads H W :
+  residual_selector fx c heads H W = false -> open_selector fx c heads H W = false.
+Proof.
+  unfold residual_selector, open_selector. intros Hs.
+  repeat (apply orb_false_iff in Hs; destruct Hs as [Hs ?]).
+  rewrite Hs, H3, H1. cbn [orb].
+  destruct c as [u|u|u]; cbn [andb] in H2 |- *.
+  - rewrite H2. reflexivity.
+  - rewrite H2, andb_false_r. cbn [orb]. apply F41_false_F44_false; auto.
+  - rewrite H2, andb_false_r. cbn [orb]. apply F41_false_F44_false; auto.
+Qed.
+
+Theorem contract_fx_open fx c heads H W :
+  valid_config c heads = true -> in_domain_fx (fx42 fx) c H W = true ->
+  open_selector fx c heads H W = false ->
+  exists m, build_model_fx (fx41 fx) true (build_backbone_fx fx c) heads = Some m /\
+    forall st, fst (model_forward m st (cfg_in_channels c, H, W)) = Some (contracted heads H W).
+Proof.
+  intros Hval Hdom Hsel. unfold open_selector in Hsel.
+  repeat (apply orb_false_iff in Hsel; destruct Hsel as [Hsel ?]).
+  assert (Hd : in_domain c H W = true /\ selector_F42 c H W = false).
+  { destruct (fx42 fx) eqn:E42.
+    - eapply in_domain_fx_on; eauto.
+    - split. exact Hdom. cbn in H1. exact H1. }
+  destruct Hd as [Hd H42].
+  destruct c as [u|u|u]; cbn [build_backbone_fx cfg_in_channels].
+  - apply unet_contract_fx; auto using flag_or.
+  - apply convnext_contract_fx; auto using flag_or.
+  - apply swint_contract_fx; auto using flag_or.
+Qed.
+
+Theorem call_sequences_fx_open fx c heads m (inputs : list (Z * Z)) :
+  valid_config c heads = true ->
+  build_model_fx (fx41 fx) true (build_backbone_fx fx c) heads = Some m ->
+  Forall (fun hw => in_domain_fx (fx42 fx) c (fst hw) (snd hw) = true /\
+                    open_selector fx c heads (fst hw) (snd hw) = false) inputs ->
+  forall st,
+    model_calls m st (map (fun hw => (cfg_in_channels c, fst hw, snd hw)) inputs)
+    = map (fun hw => Some (contracted heads (fst hw) (snd hw))) inputs.
+Proof.
+  intros Hval Hm Hin st.
+  rewrite (model_calls_stateless m (fun x => contracted heads (snd (fst x)) (snd x))).
+  - rewrite map_map. reflexivity.
+  - intros x Hx st'. apply in_map_iff in Hx. destruct Hx as ((H & W) & <- & Hhw).
+    rewrite Forall_forall in Hin. destruct (Hin (H, W) Hhw) as [Hd Hs]. cbn [fst snd] in *.
+    destruct (contract_fx_open fx c heads H W Hval Hd Hs) as (m' & Em' & Hf).
+    rewrite Hm in Em'. injection Em' as <-. apply Hf.
+Qed.
+
+(* --------- (c) target shapes for the current variant (review finding 4) --------- *)
+Lemma domain_divisible_x c heads H W :
+  valid_config c heads = true -> in_domain c H W = true ->
+  selector_F44 c heads = false -> selector_F42 c H W = false ->
+  forall hd, In hd heads -> 0 < h_os hd /\ H mod h_os hd = 0 /\ W mod h_os hd = 0.
+Proof.
+  intros Hval Hdom H44 H42 hd Hin.
+  destruct (eff_pow2 c heads Hval) as (k & Ek).
+  apply valid_core in Hval. unfold valid_config_core in Hval.
+  apply andb_true_iff in Hval. destruct Hval as [Hval _].
+  apply andb_true_iff in Hval. destruct Hval as [Hval Hvh].
+  apply andb_true_iff in Hval. destruct Hval as [_ Hpms].
+  destruct (is_pow2_spec _ Hpms) as (mm & Hmm).
+  unfold valid_heads in Hvh. apply andb_true_iff in Hvh. destruct Hvh as [_ Hall].
+  rewrite forallb_forall in Hall. specialize (Hall hd Hin).
+  apply andb_true_iff in Hall. destruct Hall as [Hall Hle].
+  apply andb_true_iff in Hall. destruct Hall as [Hp2 _].
+  destruct (is_pow2_spec _ Hp2) as (t & Et).
+  apply Z.leb_le in Hle. rewrite Et, Ek, Hmm in Hle.
+  assert (Htk : (t <= k)%nat).
+  { unfold selector_F44 in H44. destruct (cfg_patch_stride c) eqn:Eps.
+    - pose proof (existsb_false _ _ H44 hd Hin) as Hge. cbn beta in Hge. apply Z.ltb_ge in Hge.
+      rewrite Ek, Et in Hge. apply pow2_le_inv; auto.
+    - destruct c; try discriminate Eps. cbn [effective_max_stride cfg_max_stride] in *.
+      rewrite Hmm in Ek. apply pow2_inj in Ek. subst. rewrite Z.max_id in Hle. apply pow2_le_inv; auto. }
+  unfold in_domain in Hdom.
+  repeat (apply andb_true_iff in Hdom; destruct Hdom as [Hdom ?]).
+  apply Z.eqb_eq in H0, H1. rewrite Hmm in H0, H1.
+  assert (Hdiv : H mod pow2 k = 0 /\ W mod pow2 k = 0).
+  { unfold selector_F42 in H42. destruct (cfg_patch_stride c) eqn:Eps.
+    - apply andb_false_iff in H42. destruct H42 as [Hge | Hd].
+      + apply Z.ltb_ge in Hge. rewrite Ek, Hmm in Hge. apply pow2_le_inv in Hge.
+        split; eapply mod_pow2_weaken; eauto.
+      + apply negb_false_iff, andb_true_iff in Hd. destruct Hd as [D1 D2].
+        apply Z.eqb_eq in D1, D2. rewrite Ek in D1, D2. auto.
+    - destruct c; try discriminate Eps. cbn [effective_max_stride cfg_max_stride] in *.
+      rewrite Hmm in Ek. apply pow2_inj in Ek. subst. auto. }
+  destruct Hdiv as [D1 D2]. rewrite Et. pose proof (pow2_pos t).
+  split. assumption. split.
+  - apply (mod_pow2_weaken H t k); [lia | exact D1].
+  - apply (mod_pow2_weaken W t k); [lia | exact D2].
+Qed.
+
+Theorem contract_targets_fx fx c heads H W :
+  valid_config c heads = true -> in_domain_fx (fx42 fx) c H W = true ->
+  open_selector fx c heads H W = false ->
+  exists m, build_model_fx (fx41 fx) true (build_backbone_fx fx c) heads = Some m /\
+    forall st, fst (model_forward m st (cfg_in_channels c, H, W))
+               = Some (map (fun hd => target_shape hd H W) heads).
+Proof.
+  intros Hval Hdom Hsel.
+  destruct (contract_fx_open fx c heads H W Hval Hdom Hsel) as (m & Em & Hf).
+  exists m. split; auto. intros st. rewrite Hf. f_equal. apply contracted_targets.
+  unfold open_selector in Hsel.
+  repeat (apply orb_false_iff in Hsel; destruct Hsel as [Hsel ?]).
+  assert (Hd : in_domain c H W = true /\ selector_F42 c H W = false).
+  { destruct (fx42 fx) eqn:E42.
+    - eapply in_domain_fx_on; eauto.
+    - split. exact Hdom. cbn in H1. exact H1. }
+  destruct Hd as [Hd H42].
+  eapply domain_divisible_x; eauto.
+Qed.
+
+(* every valid UNet of the current tree (no selector at all): targets form of c14_unet_all_repairs *)
+Theorem unet_targets_fx fx u heads H W :
+  valid_config (CfgUNet u) heads = true -> in_domain (CfgUNet u) H W = true ->
+  fx17 fx = true -> fx18 fx = true -> fx41 fx = true ->
+  exists m, build_model_fx (fx41 fx) true (build_unet_fx fx u) heads = Some m /\
+    forall st, fst (model_forward m st (u_in_channels u, H, W))
+               = Some (map (fun hd => target_shape hd H W) heads).
+Proof.
+  intros Hval Hdom E17 E18 E41.
+  destruct (unet_contract_fx fx u heads H W Hval Hdom (or_introl E17) (or_introl E18) (or_introl E41)) as (m & Em & Hf).
+  exists m. split; auto. intros st. rewrite Hf. f_equal. apply contracted_targets.
+  eapply domain_divisible_x; eauto.
+Qed.
+
+(* --------- explicit UNet form for the current head rule without the sizing hypothesis (finding 7) --------- *)
+Theorem unet_general_fx_fixed fx c s d b heads st h w :
+  unet_valid_le c s d b -> cpb_ok (fx18 fx) (u_convs_per_block c) -> feeds fx c ->
+  heads_ok_fx (fx41 fx) heads b (s + d) -> 0 < h -> 0 < w ->
+  exists m, build_model_fx (fx41 fx) true (build_unet_fx fx c) heads = Some m /\
+    fst (model_forward m st (u_in_channels c, h * pow2 (s + d), w * pow2 (s + d)))
+    = Some (contracted heads (h * pow2 (s + d)) (w * pow2 (s + d))).
+Proof.
+  intros Hv Hcpb Hfeed Hheads Hh Hw.
+  apply (unet_model_forward_fx true fx c s d b); auto.
+  apply heads_sized_fixed_fx. unfold heads_ok_fx in Hheads.
+  eapply Forall_impl; [|exact Hheads]. intros hd (t & Ht & _ & E). exists t; auto.
+Qed.
+
+(* --------- refutations for the CURRENT tree (fx17 = fx18 = fx41 = true, fx42 = false; head rule repaired) --------- *)
+Definition cur3 : fixes := {| fx17 := true; fx18 := true; fx41 := true; fx42 := false |}.
+
+Definition refutes_fx (fx : fixes) (c : config) (heads : list head) (H W : Z) (sels : list bool) : Prop :=
+  valid_config c heads = true /\ in_domain_fx (fx42 fx) c H W = true /\ sel_vector c heads H W = sels /\
+  meets_contract_fx true fx c heads H W = false.
+
+(* F42 (open): Swin-T tiny, stem_patch_stride 4, documented max_stride 16, 48 x 48 *)
+Lemma refuted_F42_current :
+  refutes_fx cur3 (w_swint_tiny 4 4 16) (get_head MSingle 3 2 4 4) 48 48
+             [false; false; false; false; true; false; false].
+Proof. repeat split; vm_compute; reflexivity. Qed.
+
+(* F44 (open): ConvNeXt tiny, stem_patch_stride 2 (the encoder reaches 16), max_stride 32, head at 32.
+   Construction fails; no flag helps (allfix included).  Selector F41 is the historic superset. *)
+Lemma refuted_F44_current :
+  refutes_fx cur3 (w_convnext_tiny 2 2 32) (get_head MSingle 3 2 32 32) 64 64
+             [false; false; false; true; false; false; true] /\
+  refutes_fx allfix (w_convnext_tiny 2 2 32) (get_head MSingle 3 2 32 32) 64 64
+             [false; false; false; true; false; false; true] /\
+  build_model_fx true true (build_backbone_fx allfix (w_convnext_tiny 2 2 32)) (get_head MSingle 3 2 32 32) = None.
+Proof. repeat split; vm_compute; reflexivity. Qed.
+
+Lemma full_statement_refuted_current :
+  exists c heads H W, valid_config c heads = true /\ in_domain_fx (fx42 cur3) c H W = true /\
+                      meets_contract_fx true cur3 c heads H W = false.
+Proof.
+  exists (w_swint_tiny 4 4 16), (get_head MSingle 3 2 4 4), 48, 48.
+  destruct refuted_F42_current as (A & B & _ & D). auto.
+Qed.
+
+(* non-vacuity of contract_fx_open in the two regions that are new: b > e (old F20 region) with a
+   custom ConvNeXt and transposed convolutions, and a head on the Swin-T encoder output (old F41 region) *)
+Definition w_convnext_custom : config :=
+  CfgConvNext {| c_model_type := 9; c_arch := Some ([1; 2; 1; 1], [12; 24; 48; 96]); c_in_channels := 3;
+                 c_kernel := 3; c_stem_kernel := 4; c_stem_stride := 2; c_rate := 2 # 1; c_up_interp := false;
+                 c_output_stride := 4; c_max_stride := 16 |}.
+Lemma ex_open_convnext_b_gt_e :
+  let hs := get_head MBottomUp 3 2 4 8 in
+  valid_config w_convnext_custom hs = true /\ in_domain_fx false w_convnext_custom 32 48 = true /\
+  open_selector cur3 w_convnext_custom hs 32 48 = false /\ selector_F20 w_convnext_custom hs = true /\
+  meets_contract_fx true cur3 w_convnext_custom hs 32 48 = true.
+Proof. repeat split; vm_compute; reflexivity. Qed.
+Lemma ex_open_swint_top :
+  let c := w_swint_tiny 4 4 32 in let hs := get_head MBottomUp 3 2 4 32 in
+  valid_config c hs = true /\ in_domain_fx false c 64 96 = true /\
+  open_selector cur3 c hs 64 96 = false /\ selector_F41 c hs = true /\
+  meets_contract_fx true cur3 c hs 64 96 = true.
+Proof. repeat split; vm_compute; reflexivity. Qed.
+Lemma ex_open_unet :
+  let c := w_unet 24 (3 # 2) 32 4 false 1 in let hs := get_head MBottomUp 5 4 4 32 in
+  valid_config c hs = true /\ in_domain_fx false c 64 96 = true /\
+  open_selector cur3 c hs 64 96 = false /\ meets_contract_fx true cur3 c hs 64 96 = true.
+Proof. repeat split; vm_compute; reflexivity. Qed.
+
+(* finding 1: the degenerate sizes are not valid any more *)
+Lemma ex_degenerate_invalid :
+  valid_config (CfgUNet {| u_in_channels := -3; u_kernel := 0; u_filters := 8; u_rate := 2 # 1; u_max_stride := 8;
+                           u_stem_stride := None; u_middle := true; u_up_interp := true; u_convs_per_block := 2;
+                           u_output_stride := 2 |}) (get_head MSingle (-2) 2 2 2) = false /\
+  valid_config (w_unet 8 (2 # 1) 8 2 true 2) (get_head MSingle 0 2 2 2) = false /\
+  valid_config (w_unet 8 (2 # 1) 8 2 true 2) (get_head MBottomUp 2 0 2 2) = false /\
+  valid_config (w_unet 8 (2 # 1) 8 2 true 2) (get_head MBottomUp 2 1 2 2) = true.
+Proof. repeat split; vm_compute; reflexivity. Qed.
